@@ -21,15 +21,16 @@ func TestMain(m *testing.M) { h.Main(m) }
 
 type Case struct {
 	Powers  []int64  `json:"powers"`
-	Ops     []sim.Op `json:"ops"`       // prefix schedule (no crashes)
-	Subject int      `json:"subject"`   // selector among validators
-	Repair  bool     `json:"repair"`    // neutralise known finding "proposer cache lost on reload" (hook H3)
-	Cut     int      `json:"cut"`       // -1: log intact; else byte offset (mod line length) at which the last WAL line is cut
-	Rotate  int      `json:"rotate"`    // -1: never; else the WAL head is rotated after that many ops
-	Second  int      `json:"second"`    // -1: one crash; else crash again after that many fair steps and compare again
-	PartSz  int      `json:"part_size"` // block part size (0 = 512)
-	TxBytes int      `json:"tx_bytes"`  // size of a transaction queued at every proposer (0 = none): makes WAL records large
-	EndOn   string   `json:"end_on"`    // "": crash where the schedule ends; "part"/"vote": first deliver one more in-flight block part / vote to the subject, so that record is the last one in its log
+	Ops     []sim.Op `json:"ops"`           // prefix schedule (no crashes)
+	Subject int      `json:"subject"`       // selector among validators
+	Repair  bool     `json:"repair"`        // neutralise known finding "proposer cache lost on reload" (hook H3)
+	Cut     int      `json:"cut"`           // -1: log intact; else byte offset (mod line length) at which the last WAL line is cut
+	Rotate  int      `json:"rotate"`        // -1: never; else the WAL head is rotated after that many ops
+	Second  int      `json:"second"`        // -1: one crash; else crash again after that many fair steps and compare again
+	PartSz  int      `json:"part_size"`     // block part size (0 = 512)
+	TxBytes int      `json:"tx_bytes"`      // size of a transaction queued at every proposer (0 = none): makes WAL records large
+	Byz     []int    `json:"byz,omitempty"` // Byzantine validators (< 1/3 of the power, never the subject): their votes, proposals and +2/3 claims are part of what the subject processes before the crash
+	EndOn   string   `json:"end_on"`        // "": crash where the schedule ends; "part"/"vote": first deliver one more in-flight block part / vote to the subject, so that record is the last one in its log
 }
 
 var opKinds = []string{
@@ -54,8 +55,20 @@ func genCase(t *rapid.T) Case {
 		}
 	}
 	c := Case{Powers: ps, Subject: rapid.IntRange(0, n-1).Draw(t, "subject")}
+	kinds := opKinds
+	if n >= 4 && rapid.IntRange(0, 2).Draw(t, "withByzantine") == 0 {
+		b := (c.Subject + 1 + rapid.IntRange(0, n-2).Draw(t, "byz")) % n
+		var total int64
+		for _, p := range ps {
+			total += p
+		}
+		if 3*ps[b] < total {
+			c.Byz = []int{b}
+			kinds = append(append([]string{}, opKinds...), "byzvote", "byzvote", "byzvote", "byzclaim", "byzclaim", "byzprop", "split")
+		}
+	}
 	c.Ops = rapid.SliceOfN(rapid.Custom(func(t *rapid.T) sim.Op {
-		return sim.Op{K: rapid.SampledFrom(opKinds).Draw(t, "k"), N: rapid.IntRange(0, 31).Draw(t, "n"), A: rapid.IntRange(0, 255).Draw(t, "a")}
+		return sim.Op{K: rapid.SampledFrom(kinds).Draw(t, "k"), N: rapid.IntRange(0, 31).Draw(t, "n"), A: rapid.IntRange(0, 255).Draw(t, "a"), B: rapid.IntRange(0, 255).Draw(t, "b"), C: rapid.IntRange(0, 255).Draw(t, "c")}
 	}), 1, 120).Draw(t, "ops")
 	c.Repair = rapid.IntRange(0, 4).Draw(t, "repair") > 0
 	c.Cut = -1
@@ -78,6 +91,8 @@ func genCase(t *rapid.T) Case {
 	}
 	return c
 }
+
+const sigClaimedVote = "lock-built-on-claimed-conflicting-vote-lost-after-replay"
 
 type voteKey struct {
 	h, r int64
@@ -110,7 +125,13 @@ func cutLastLine(path string, j int) (string, bool) {
 func runCase(c Case, x *h.Ctx) {
 	dir, doneDir := sim.TempDir("c07-")
 	defer doneDir()
-	net := sim.New(sim.Config{Powers: c.Powers, Dir: dir, RepairProposer: c.Repair, PartSize: c.PartSz})
+	byzMask := make([]bool, len(c.Powers))
+	for _, b := range c.Byz {
+		if b >= 0 && b < len(byzMask) && b != c.Subject%len(c.Powers) {
+			byzMask[b] = true
+		}
+	}
+	net := sim.New(sim.Config{Powers: c.Powers, Byz: byzMask, Dir: dir, RepairProposer: c.Repair, PartSize: c.PartSz})
 	defer net.Close()
 	if c.TxBytes > 0 {
 		for _, n := range net.Honest() {
@@ -157,6 +178,12 @@ func runCase(c Case, x *h.Ctx) {
 			fork = fmt.Sprintf("node %d committed %x at height %d, another node %x", n.ID, cm.Hash, cm.Height, prev)
 		}
 		agreed[cm.Height] = cm.Hash
+	}
+	claimsInPrefix := false
+	for _, op := range c.Ops {
+		if len(c.Byz) > 0 && (op.K == "byzclaim" || op.K == "sync") {
+			claimsInPrefix = true
+		}
 	}
 	rotated := false
 	for i, op := range c.Ops {
@@ -251,12 +278,18 @@ func runCase(c Case, x *h.Ctx) {
 		}
 		if got != want && !(cutKind == "input" && got == dCur) {
 			sig := "digest-differs-after-replay"
+			if claimsInPrefix && d.Stats.Equivocations > 0 {
+				// listed finding (leg claimedvote): +2/3 claims of peers are not logged, so a conflicting
+				// vote of an equivocating validator that was counted because of a claim is rejected by the
+				// replay; histories with an equivocation AND a claim are attributed to it
+				sig = sigClaimedVote
+			}
 			after := sub.CS.GetState().Validators.Proposer().Address
 			if !c.Repair && !bytes.Equal(after, state0Proposer) {
 				sig = "proposer-cache-lost-on-reload"
 				s20Seen = true
 			}
-			if cutKind != "" && sig != "proposer-cache-lost-on-reload" {
+			if cutKind != "" && sig != "proposer-cache-lost-on-reload" && sig != sigClaimedVote {
 				sig += ":cut-" + cutKind
 			}
 			if x.Fail(sig, "%s: round state after restart differs from the state when the last logged input was processed\n before: %s\n after:  %s\n (round-0 proposer before %x, after reload %x; proposer of the round before %x)", tag, want, got, state0Proposer, after, proposerBefore) {
@@ -349,6 +382,15 @@ func runCase(c Case, x *h.Ctx) {
 		x.Label("suffix-stalled")
 	}
 	x.Labelf("validators:%d", len(c.Powers))
+	if len(c.Byz) > 0 {
+		x.Label("byzantine-validator-present")
+		if d.Stats.ByzClaims > 0 {
+			x.Label("byzantine-claim-before-crash")
+		}
+		if d.Stats.Equivocations > 0 {
+			x.Label("byzantine-equivocation-before-crash")
+		}
+	}
 	x.Labelf("round-at-crash:%d", min64(maxRound, 3))
 	if lockedAtCrash {
 		x.Label("locked-at-crash")
